@@ -56,12 +56,13 @@ def run(rep):
     kfailed = run_kani_part(rep)
     try:
         run_verus_part(rep)
-    except (LostAnchor, RewriteRefused) as e:
-        # the unbounded proof lost its anchors (function rewritten): undecided unless the bounded harnesses on the
-        # real code fail, in which case their failure is the reported violation
+    except (LostAnchor, RewriteRefused, Undecided) as e:
+        # the unbounded proof cannot be generated / checked any more (function rewritten, construct outside Verus'
+        # subset): undecided, unless the bounded harnesses or the native stand-in on the real code fail, in which case
+        # their failure is the reported violation (a violation takes precedence over 'undecided' in the verdict)
+        rep.notes.append("Verus unit not available (%s); verdict comes from the bounded Kani harnesses and the native stand-in" % str(e)[:300])
         if not kfailed:
-            raise
-        rep.notes.append("Verus splice lost its anchors (%s); verdict comes from the bounded Kani harnesses" % e)
+            rep.undecided.append("Verus unit not available: " + str(e)[:400].replace("\n", " | "))
     # bounded stand-in for the statement level (NqSerializer / NtSerializer + sophia's own N-Quads / N-Triples
     # parsers): CBMC needs > 25 min for a single concrete quad through serialize_quads
     try:
@@ -71,8 +72,8 @@ def run(rep):
     rc, out, err, secs = native.run_replay(ID, "c03", ["stmts"], extra_files=_extra)
     if rc in (0, 1):
         rep.obligation("native:c03_statements", "native exhaustive enumeration (rustc, real crates)", rc == 0, seconds=secs,
-                       detail="1260 quads: 6 subjects x 42 objects x 5 graph names (every literal shape incl. datatypes resembling xsd:string, tags, surrounding white space, quoted triples, blank node labels over the PN_CHARS repertoire, IRIs with dot / empty segments, percent-escapes, upper case) x 3 graph names through NqSerializer/NtSerializer and sophia_turtle's parsers: one statement per line, parse(serialize(q)) == q | functions: serialize_quads, serialize_triples, write_triple, write_term with long IRIs",
-                       complete=False, bound="1260 single-statement datasets")
+                       detail="1620 quads: 6 subjects x 54 objects x 5 graph names (every literal shape incl. datatypes resembling xsd:string, tags, surrounding white space, quoted triples, blank node labels over the PN_CHARS repertoire, IRIs with dot / empty segments, percent-escapes, upper case, every C0 control / DEL / NEL / LS / BOM / non-character in literals) x 3 graph names through NqSerializer/NtSerializer and sophia_turtle's parsers: one statement per line, parse(serialize(q)) == q | functions: serialize_quads, serialize_triples, write_triple, write_term with long IRIs",
+                       complete=False, bound="1620 single-statement datasets")
         if rc == 1:
             rep.violation("native:c03_statements", "bounded stand-in failed\n" + out[-1500:], witness=out.strip().splitlines()[0],
                           replay_text="./check C03 --replay <this file>", confirmed=True)
